@@ -116,14 +116,14 @@ sc_reduce_alltoall (sc_MPI_Comm mpicomm,
         }
       }
     }
-    memcpy (data, alldata, datasize);
-    SC_FREE (alldata);          /* alldata is not used in send buffers */
 
-    /* wait for sends only after computation is done */
+    /* the result overwrites the send buffer: wait for the sends first */
     if (doall) {
       mpiret = sc_MPI_Waitall (allcount, srequest, sc_MPI_STATUSES_IGNORE);
       SC_CHECK_MPI (mpiret);
     }
+    memcpy (data, alldata, datasize);
+    SC_FREE (alldata);          /* alldata is not used in send buffers */
     SC_FREE (request);
   }
   else {
